@@ -84,6 +84,7 @@ CLAIMED["C03"] = dict(
          "spelling of a replicated producer is rewritten only for consumers in the producer's stage, replica names and rewritten references share one format and index, indices run over range(N), a "
          "reference counts as replicated only for a positive propagated count of a non-aggregating producer, every "
          "component is emitted by one branch, counts propagate topologically and stop at aggregating components. "
+         "The variable scope a replica count is read from is a fresh copy per component (the merge helper mutates its first argument). "
          "Equality of the expanded dataflow with an independent expansion is not decided.",
     technique="substitution-site lint with pattern-shape analysis (SUB), format-string agreement, CFG edge-dominance",
     design="3/C03")
@@ -140,7 +141,7 @@ CLAIMED["C04"] = dict(
     text="Decides the structure the layering rests on: order of the variable layers (variables.update sequence traced "
          "to accessors, platform layers only for non-default platforms), order of the option layers and the left fold "
          "with override_object(ret, layer), the 'higher layer wins unless None' branches of override_object, injection of "
-         "user variables as platform-stage variables for every platform/stage before the description is copied, "
+         "user variables as platform-stage variables for every platform/stage before the description is copied, from a dictionary created afresh for each stage, "
          "handlers that may swallow an unknown variable only under ignore_errors / primitive 'replica', interpolate rescans "
          "the whole string after every substitution (scan position advanced only under a tolerance guard, by one "
          "character), the resolver cache is transparent (C08 analysis re-used), and typed-option "
@@ -231,7 +232,8 @@ CLAIMED["C06"] = dict(
          "parameter substitution by match span with the inserted text skipped; component names numbered over the ordered "
          "components and checked for uniqueness before use (a genuine collision defect was repaired); the ignore list of "
          "replace_parameter_references is the component's own variables only; OutputReference.split matches step locations "
-         "component by component. That the "
+         "component by component; a declared default is stored only when the parameter is absent (never because the supplied "
+         "value is falsy); no mapping is indexed with a key on the failing side of its own membership test (one genuine defect repaired). That the "
          "producer/consumer relation equals the flattened reference relation for all namespaces and that the result is "
          "accepted by the FlowIR validator need execution and are not decided.",
     technique="explicit-raise escape analysis over a name-resolved call graph, error-collection lint, SUB, naming-loop "
